@@ -110,6 +110,40 @@ class TitsOracle:
     def shortlex(self, word):
         return min(self.reduced_class(word))
 
+    def full_length(self, cap=40000):
+        """for a finite group with at most `cap` reduced words in all: 1 + length of the
+        longest element (so that a ball of that radius ends with an empty sphere); None
+        if the enumeration exceeds the cap or reaches length 64"""
+        spheres = [{(): frozenset([()])}]
+        total = 1
+        while spheres[-1] and len(spheres) < 64:
+            nxt = self._next_sphere(spheres[-1])
+            total += sum(len(c) for c in nxt.values())
+            if total > cap:
+                return None
+            spheres.append(nxt)
+        return len(spheres) - 1 if not spheres[-1] else None
+
+    def _next_sphere(self, sphere):
+        nxt = {}
+        seen_words = set()
+        for name, cls in sphere.items():
+            desc = {u[-1] for u in cls if u}
+            for s in range(self.n):
+                if s in desc:
+                    continue
+                w = name + (s,)
+                if w in seen_words:
+                    continue
+                c = braid_class(self.m, w)
+                for u in c:
+                    if has_square(u) >= 0:
+                        raise OracleError("exchange argument and Tits' theorem disagree "
+                                          "on %r" % (u,))
+                seen_words.update(c)
+                nxt[min(c)] = frozenset(c)
+        return nxt
+
     def ball(self, L):
         """spheres[k] = {shortlex name: frozenset of all reduced expressions} for the
         elements of length k, k = 0..L.  Built from the right: g.s is longer than g
@@ -117,23 +151,7 @@ class TitsOracle:
         expression of g.s followed by s would be a reduced expression of g)."""
         spheres = [{(): frozenset([()])}]
         for k in range(L):
-            nxt = {}
-            seen_words = set()
-            for name, cls in spheres[-1].items():
-                desc = {u[-1] for u in cls if u}
-                for s in range(self.n):
-                    if s in desc:
-                        continue
-                    w = name + (s,)
-                    if w in seen_words:
-                        continue
-                    c = braid_class(self.m, w)
-                    for u in c:
-                        if has_square(u) >= 0:
-                            raise OracleError("exchange argument and Tits' theorem disagree "
-                                              "on %r" % (u,))
-                    seen_words.update(c)
-                    nxt[min(c)] = frozenset(c)
+            nxt = self._next_sphere(spheres[-1])
             spheres.append(nxt)
             if not nxt:
                 break
